@@ -399,6 +399,18 @@ def fr3(ctx):
                                   'a header can be returned although Header::deserialize rejected it')
     if n == 0:
         ctx.missing('deserialize-user', 'no FrameReader body calls Header::deserialize')
+
+
+@rule('FR3z', ['C08', 'C07', 'C01'], floor=2, template='guard-dominates-exit')
+def fr3z(ctx):
+    """The end of the log is an ALL-zero header, nothing narrower and nothing else: NotAvailable is answered only
+    when all HEADER_LEN bytes are zero (a written frame whose checksum happens to be 0 is still a frame: C07/C01),
+    and a header is decoded only when they are not (C08)."""
+    hd = ctx.fn('frame::header::Header::deserialize')
+    if not hd:
+        ctx.missing('deserialize', 'Header::deserialize not found')
+        return
+    hd = hd[0]
     # an all-zero header means end of log: NotAvailable only under the true edge of `header_bytes == [0; HEADER_LEN]`
     for b in ctx.f.bodies.values():
         if not b.path.startswith(FRD) or not any(cs.node == hd.id for cs in b.calls):
